@@ -295,6 +295,115 @@ fn mem_dec(key_mode: bool, len: u64, read_size: usize) -> String {
     report(o, peak, &mm, &format!(" match={}", if matched { 1 } else { 0 }))
 }
 
+// ---------------------------------------------------------------------------------------------
+// C11, hostile announced lengths:
+//   mem_key_forged  <len> <read_size> <chunk_index> <announced> <keep|cut|pad>
+//   mem_pass_forged <len> <read_size> <chunk_index> <announced> <keep|cut|pad>
+// The library encrypts the generator stream into a temporary file (unmeasured); then the 32-bit
+// length field of the header of chunk <chunk_index> is overwritten with <announced> (big endian) and
+//   keep  the rest of the file stays as it is,
+//   cut   the file ends right after that header,
+//   pad   the file is extended (sparse, zero bytes) so that <announced> + 16 bytes DO follow the header.
+// The decrypt call on that file is measured exactly as in mem_*_dec.  While it runs the allocator refuses
+// any single request above FORGED_REQ_CAP (the process then aborts: reported by the supervisor as
+// outcome=abort), so a forged 4 GiB length never costs the machine 4 GiB.
+// Reply: as mem_*_dec (without match=) plus hdr_off=<offset of the forged header> flen=<file length> bigreq=<largest single request>
+pub const FORGED_REQ_CAP: usize = 1 << 29;
+
+fn forged_prep(key_mode: bool, len: u64, path: &str) -> Result<(), String> {
+    let m0 = RefCell::new(Meter::new());
+    let mut rd = GenReader { left: len, cap: 65536, st: SEED, m: &m0 };
+    let f = File::create(path).map_err(|e| format!("tmpfile:{:?}", e.kind()))?;
+    let mut wr = BufWriter::with_capacity(1 << 20, f);
+    encrypt_into(key_mode, &mut rd, &mut wr).map_err(|e| format!("prep_err:{}", e))?;
+    wr.flush().map_err(|e| format!("tmpfile:{:?}", e.kind()))?;
+    Ok(())
+}
+
+fn mem_forged(key_mode: bool, len: u64, read_size: usize, idx: u64, announced: u32, tail: &str) -> String {
+    use std::io::{Seek, SeekFrom};
+    let path = format!(
+        "/tmp/kv_libdrv_memf_{}_{}.bin",
+        std::process::id(),
+        TMP_COUNTER.fetch_add(1, Ordering::Relaxed)
+    );
+    let tmp = TmpFile(path.clone());
+    if let Err(e) = forged_prep(key_mode, len, &path) {
+        return format!("outcome={}", e);
+    }
+    let hdr: u64 = if key_mode { 132 } else { 36 };
+    let off = hdr + idx * (65536 + 32);
+    let flen;
+    {
+        let mut f = match std::fs::OpenOptions::new().read(true).write(true).open(&path) {
+            Ok(f) => f,
+            Err(e) => return format!("outcome=tmpfile:{:?}", e.kind()),
+        };
+        let cur = f.metadata().map(|m| m.len()).unwrap_or(0);
+        if off + 16 > cur {
+            return format!("outcome=badargs:no_chunk_{}_in_{}_bytes", idx, cur);
+        }
+        let io = (|| -> io::Result<u64> {
+            f.seek(SeekFrom::Start(off + 12))?;
+            f.write_all(&announced.to_be_bytes())?;
+            match tail {
+                "cut" => f.set_len(off + 16)?,
+                "pad" => {
+                    let want = off + 16 + announced as u64 + 16;
+                    if want > cur {
+                        f.set_len(want)?
+                    }
+                }
+                _ => {}
+            }
+            f.flush()?;
+            Ok(f.metadata()?.len())
+        })();
+        flen = match io {
+            Ok(n) => n,
+            Err(e) => return format!("outcome=tmpfile:{:?}", e.kind()),
+        };
+    }
+    let f = match File::open(&path) {
+        Ok(f) => f,
+        Err(e) => return format!("outcome=tmpfile:{:?}", e.kind()),
+    };
+    // the open descriptor keeps the file readable; unlinking it NOW means that nothing is left behind when the
+    // measured call ends in an abort (refused allocation)
+    drop(tmp);
+    let m = RefCell::new(Meter::new());
+    let mut rd = CapReader { inner: BufReader::new(f), cap: read_size, m: &m };
+    let mut wr = CountSink { m: &m };
+    let res: Result<(), String>;
+    let peak;
+    if key_mode {
+        let r = PrivateKey::try_from(&BOB_SK[..]).unwrap();
+        let rpk = r.to_public().unwrap();
+        crate::zero::mem_set_request_cap(FORGED_REQ_CAP);
+        let base = mem_reset_peak();
+        m.borrow_mut().base = base;
+        res = kc::decrypt::key_decrypt(&mut rd, &mut wr, &r, &rpk, AsymFileFormat::V1)
+            .map(|_| ())
+            .map_err(|e| dec_err(&e));
+        peak = mem_peak().saturating_sub(base);
+    } else {
+        crate::zero::mem_set_request_cap(FORGED_REQ_CAP);
+        let base = mem_reset_peak();
+        m.borrow_mut().base = base;
+        res = kc::decrypt::pass_decrypt(&mut rd, &mut wr, PASSWORD, PassFileFormat::V1).map_err(|e| dec_err(&e));
+        peak = mem_peak().saturating_sub(base);
+    }
+    let bigreq = crate::zero::mem_biggest_request();
+    crate::zero::mem_set_request_cap(0);
+    drop(rd);
+    let o = match res {
+        Ok(()) => "ok".to_string(),
+        Err(e) => format!("err:{}", e),
+    };
+    let mm = m.borrow();
+    report(o, peak, &mm, &format!(" hdr_off={} flen={} bigreq={}", off, flen, bigreq))
+}
+
 pub fn run(a: &[&str]) -> String {
     if a.len() < 3 {
         return "outcome=badargs".into();
@@ -302,6 +411,14 @@ pub fn run(a: &[&str]) -> String {
     let len: u64 = a[1].parse().expect("len");
     let read_size: usize = a[2].parse().expect("read_size");
     assert!(read_size > 0, "read_size must be positive");
+    if a[0] == "mem_key_forged" || a[0] == "mem_pass_forged" {
+        if a.len() < 6 {
+            return "outcome=badargs".into();
+        }
+        let idx: u64 = a[3].parse().expect("chunk_index");
+        let announced: u32 = a[4].parse().expect("announced");
+        return mem_forged(a[0] == "mem_key_forged", len, read_size, idx, announced, a[5]);
+    }
     match a[0] {
         "mem_key_enc" => mem_enc(true, len, read_size),
         "mem_pass_enc" => mem_enc(false, len, read_size),
